@@ -258,12 +258,14 @@ def random_instance(rng, kind=None, max_reads=8, max_cols=6, small=False):
                 triples.reverse()
     else:  # three generations
         n_ind, triples = 5, [[0, 1, 2], [2, 3, 4]]
+        if rng.random() < 0.5:
+            triples.reverse()  # registered bottom-up: the grandchild's trio before the trio in which its parent is the child
     n = rng.randint(1, max_cols)
     step = rng.choice([1, 10, 7])
     positions = sorted(rng.sample(range(1, 1 + n * step * 2), n))
     distrust = rng.random() < 0.4
     R = rng.randint(0 if rng.random() < 0.05 else 1, max_reads)
-    wmode = rng.choice(["one", "small", "small", "mixed", "large"])
+    wmode = rng.choice(["one", "small", "small", "mixed", "large", "huge"])
     reads = []
     cover_cols = positions if rng.random() < 0.7 or n < 3 else sorted(rng.sample(positions, rng.randint(2, n)))
     # hidden truth to make instances non-random (so that optimum is often small but > 0)
@@ -292,6 +294,8 @@ def random_instance(rng, kind=None, max_reads=8, max_cols=6, small=False):
                 w = rng.randint(0, 3)
             elif wmode == "mixed":
                 w = rng.choice([0, 1, 2, 5, 10, 30])
+            elif wmode == "huge":
+                w = rng.choice([65535, 65536, 70000, 100000, 131072, 300000]) + rng.randint(0, 9)  # beyond 16 bits, sums far below 2^31
             else:
                 w = rng.randint(10, 1000)
             vs.append([p, a, w])
